@@ -21,6 +21,7 @@ BY_PROPERTY = {
              'Mahotas.pybody_morph_cerode_eq_model', 'Mahotas.pybody_morph_cdilate_eq_model',
              'Mahotas.pybody_morph_tophat_open_eq_model', 'Mahotas.pybody_morph_tophat_close_eq_model',
              'Mahotas.pybody_c02Prims_consistent']),
+    'C06': ('Mahotas.Proofs.PyBodyTiesC06', ['Mahotas.pybody_convolve_gaussian_filter1d_eq_model']),
 }
 LEAN_TARGETS = [m for m, _ in BY_PROPERTY.values()]
 THEOREMS = {m: list(t) for m, t in BY_PROPERTY.values()}
